@@ -48,6 +48,12 @@ def main():
     try:
         env = dict(os.environ, PYTHONPATH=wt + "/src")
         demo = os.path.join(src, "demo.py")
+        # a demo may name the seeder's own (since removed) worktree for corpus files: point it at this worktree
+        txt = open(demo).read()
+        fixed = re.sub(r"/tmp/seed\d*-wt-C\d\d", wt, txt)
+        if fixed != txt:
+            demo = os.path.join(out, "demo.py")
+            open(demo, "w").write(fixed)
         rc0, _ = sh(["/venv/bin/python", demo], cwd=wt, env=env, timeout=900)
         meta["ran"].append("demo.py on clean worktree -> exit %d" % rc0)
         rc, o = sh(["git", "-C", wt, "apply", os.path.join(src, "patch.diff")])
